@@ -211,7 +211,11 @@ def task_formulas(t):
         forms = dict(families(names, tier))[fam]
     ev = Evaluator(U, node_mask=lambda n: O.Den(raw, U)(n) if abs(n) in raw._succ else _bad(n))
     mine = sweep.shard(forms, ns)[si]
+    _decoy = sweep.Decoy(names)
     for k, s in enumerate(mine):
+        _bad = _decoy.poke()
+        if _bad:
+            rec('second-manager:' + _bad, _bad, dict(task=t))
         if focus is not None and s != focus:
             continue
         if gc_mode and k % 3 == 2 and focus is None:
